@@ -104,6 +104,36 @@ def run(rep, tier, seed, model_ok=True, effort=1):
                     rep.case((pi, order, fault, "dry"))
                     rep.count("dry-fault-runs")
         rep.sample(dict(version_pattern=spec["vp"], files=[f.path for f in spec["files"]], patterns=[f.patterns for f in spec["files"]], orders=len(orders), faults=len(faults)))
+    # the new version is rejected (lower / equal / PEP 440-lower tag change): nothing may change
+    for vp, cur, args_ in [("MAJOR.MINOR.PATCH[-TAG]", "1.2.3", ["--tag", "beta"]), ("MAJOR.MINOR.PATCH[-TAG]", "1.2.3-rc", ["--tag", "beta"]),
+                           ("MAJOR.MINOR.PATCH", "1.2.3", ["--set-version", "1.2.3"]), ("MAJOR.MINOR.PATCH", "1.2.3", ["--set-version", "1.2.2"]),
+                           ("MAJOR.MINOR.PATCH", "1.2.3", []), ("vYYYY0M.BUILD[-TAG]", "v209901.1001", ["--set-version", "v202001.1001"])]:
+        for commit in (False, True):
+            prj = project.TempProject(vp, cur, files={"a.txt": ["ver = {version}"]}, commit=commit, tag=commit, vcs="fakegit" if commit else None,
+                                      vcs_cfg=dict(tags=[], status="", remote=None) if commit else None, hooks={"pre": "ok"} if commit else None)
+            with prj:
+                before = prj.snapshot()
+                args = ["update", "--no-fetch", "--date", "2026-10-01"] + args_
+                code, out, logs, exc = prj.run(impl, args)
+                after = prj.snapshot()
+                mut = [e["key"] for e in prj.vcs_log() if e["key"] in MUTATING] if commit else []
+                rep.case(("rejected-version", vp, cur, tuple(args_), commit))
+                rep.count("rejected-version-runs")
+                inp = dict(version_pattern=vp, current_version=cur, args=args, commit=commit, exit=code, logs=logs[-4:])
+                if code == 0 or after != before or mut or (commit and prj.hooks_log()):
+                    rep.violation("a rejected new version did not stop the update (exit %s, files changed: %s, vcs: %s)" % (code, after != before, mut), input=inp, **{"class": "rejected-not-stopped"})
+    # a configured glob entry that matches no file is a missing file
+    for commit in (False, True):
+        prj = project.TempProject("MAJOR.MINOR.PATCH", "1.2.3", files={"a.txt": ["ver = {version}"], "gone/*.md": ["{version}"]}, commit=commit, tag=commit,
+                                  vcs="fakegit" if commit else None, vcs_cfg=dict(tags=[], status="", remote=None) if commit else None)
+        with prj:
+            before = prj.snapshot()
+            for extra in ([], ["--dry"]):
+                code, out, logs, exc = prj.run(impl, ["update", "--no-fetch", "--patch"] + extra)
+                after = prj.snapshot()
+                rep.case(("glob-without-files", commit, tuple(extra)))
+                if code == 0 or after != before:
+                    rep.violation("a configured glob entry without files did not stop the update", input=dict(args=extra, commit=commit, exit=code, logs=logs[-3:]), **{"class": "missing-glob-ignored"})
     # correspondence: the generated constants say rewrite_files materialises the generator
     if model_ok:
         bad, errs = common.coq_eval("c06", "From BV Require Import Gen.Tables.", "bool", "fun b => b", ["REWRITE_FILES_EAGER_V2", "REWRITE_FILES_EAGER_V1"])
